@@ -76,6 +76,9 @@ func runC05(c *Ctx) {
 	c.r058(pk)
 	c.r059(pk)
 	c.r0510(pk)
+	// Inline decides whether the root element keeps its xmlns: it is a per-call fact and must not be written
+	// into the shared option struct (a later standalone document would lose its namespace)
+	c.alsoUnder(map[string]string{"R13.1": "R05.11"}, func(construct string) bool { return strings.Contains(construct, "svg.") }, func() { c.r131() })
 }
 
 // R05.10: a curve is replaced by a line only if a following smooth curve still sees the same control point.
